@@ -4,8 +4,10 @@ package sim
 // same run under every Go release.
 type Rng struct{ s uint64 }
 
+//go:norace
 func NewRng(seed uint64) *Rng { return &Rng{s: seed*0x9E3779B97F4A7C15 + 0x1234567} }
 
+//go:norace
 func (r *Rng) Uint64() uint64 {
 	r.s += 0x9E3779B97F4A7C15
 	z := r.s
@@ -14,6 +16,7 @@ func (r *Rng) Uint64() uint64 {
 	return z ^ (z >> 31)
 }
 
+//go:norace
 func (r *Rng) Intn(n int) int {
 	if n <= 0 {
 		return 0
@@ -22,6 +25,8 @@ func (r *Rng) Intn(n int) int {
 }
 
 // Read implements io.Reader (used as crypto/rand.Reader inside a run).
+//
+//go:norace
 func (r *Rng) Read(p []byte) (int, error) {
 	for i := 0; i < len(p); i += 8 {
 		v := r.Uint64()
